@@ -409,6 +409,10 @@ def _configure_node(var, data, nodemap, model):
                 continue  # prefer (a) over (a /) when concept is missing
             edges.insert(0, ('/', target, epis))
         else:
+            if push and nodemap.get(target) and nodemap[target][0] == target:
+                # stale or duplicated marker: the node context for target
+                # already exists (e.g., it is the top), don't open another
+                push = False
             if push:
                 nodemap[target] = (target, [])
                 target, _surprising = _configure_node(
